@@ -1008,7 +1008,7 @@ _METHOD_MODELS = {
 }
 
 _OPAQUE_SAFE_METHODS = {
-    list: {"append", "extend", "copy", "insert", "pop", "clear", "reverse", "__len__", "__iter__"},
+    list: {"append", "extend", "copy", "insert", "pop", "clear", "reverse", "__len__", "__iter__", "__init__"},
     dict: {"get", "setdefault", "items", "keys", "values", "update", "pop", "copy", "__len__"},
     tuple: {"__add__", "__len__", "__new__", "__getitem__"},
 }
@@ -1059,6 +1059,9 @@ def opaque_safe(fn):
         for t, names in _OPAQUE_SAFE_METHODS.items():
             if isinstance(slf, t) and name in names:
                 return True
+        if isinstance(slf, list) and name in ("remove", "index", "count", "__contains__"):
+            # identity semantics when no element type overrides __eq__
+            return all(type(e).__eq__ is object.__eq__ for e in slf)
         if slf is tuple or slf is list or slf is dict or slf is object:
             return name in ("__new__", "__init__")
     if isinstance(fn, types.MethodType):
